@@ -45,7 +45,7 @@ def execute(case):
     op, depth = case["op"], case["depth"]
     shape = case.get("shape", 4)
     out = {k: v for k, v in case.items() if k != "tree"}
-    for k, d in (("via", "tensor"), ("d", 0), ("levels", 1), ("style", "tuple"), ("fn", "sum"), ("guide", []), ("step", 2)):
+    for k, d in (("via", "tensor"), ("d", 0), ("levels", 1), ("style", "tuple"), ("fn", "sum"), ("guide", []), ("step", 2), ("fd", 0)):
         out.setdefault(k, d)
     empty = {"rank0": 0, "root": {"k": "F", "e": []}, "ranks": []}
     out.update({"exc": "ok", "shapes": [shape] * depth, "res": empty, "res2": empty, "eq": 0, "did2": 0, "nest": "", "post": {},
@@ -77,6 +77,11 @@ def execute(case):
                 r.setOwner(None)
                 r.swapRanksBelow(depth=d - 1)
             out["res"] = pj(r)
+        elif op == "flatswap":
+            t1 = t.flattenRanks(depth=case["fd"], levels=1, coord_style=out["style"])
+            r = t1.swapRanks(depth=d)
+            r2 = r.swapRanks(depth=d)
+            out["res"], out["res2"], out["did2"] = pj(r), pj(r2), 1
         elif op == "flatten":
             kw = {"coord_style": out["style"]} if via == "tensor" else {"style": out["style"]}
             r = src.flattenRanks(depth=d, levels=out["levels"], **kw)
